@@ -25,6 +25,9 @@ typedef struct SparseM {
   long gpos;        /* arbitrary position in [0,nnz) (or -1), fixed by the harness */
   long gouter;      /* the outer vector that contains gpos */
   long last_value_pos, last_value_outer;  /* position/outer of the most recent value() read */
+  long last_index_pos;                    /* position of the most recent index() read */
+  long last_ctor_outer;                   /* outer index of the most recent InnerIterator construction */
+  long last_coeff_outer, last_coeff_inner;/* arguments of the most recent coeff() lookup */
 } SparseM;
 typedef SparseM SparseRM;   /* RowMajor: outer = row, inner = column */
 typedef SparseM SparseCM;   /* ColMajor: outer = column, inner = row */
@@ -49,13 +52,22 @@ static inline long SparseM_outerSize(SparseM *m) { return m->outerSize; }
 static inline long SparseM_innerSize(SparseM *m) { return m->innerSize; }
 static inline long SparseM_nonZeros(SparseM *m) { return m->nnz; }
 
+/* optional ghost recording (a spec file defines SPARSE_GHOSTS before including this header to enable it;
+ * the recorded fields must then appear in the assigns clauses) */
+#ifdef SPARSE_GHOSTS
+#define SPARSE_GHOST_CTOR(m, o) ((m)->last_ctor_outer = (o))
+#define SPARSE_GHOST_INDEX(it) ((it)->m->last_index_pos = (it)->m_id)
+#else
+#define SPARSE_GHOST_CTOR(m, o) ((void)0)
+#define SPARSE_GHOST_INDEX(it) ((void)0)
+#endif
 /* iterator operations are macros on purpose: `(&Cinner)->m_id++` is an assignment to a local
  * variable for CBMC, whereas a function taking `SpIt *` turns every step into a pointer write
  * that the contract instrumentation must check against the write set. */
 #define SpIt_ctor2(mat, outer_) ({ \
   SparseM *_m = (mat); long _o = (outer_); SpIt _it; \
   __CPROVER_assert(0 <= _o && _o < _m->outerSize, "InnerIterator: outer index inside the matrix"); \
-  _it.m = _m; _it.m_outer = _o; _it.m_id = _m->outer[_o]; _it.m_end = _m->outer[_o + 1]; \
+  _it.m = _m; _it.m_outer = _o; _it.m_id = _m->outer[_o]; _it.m_end = _m->outer[_o + 1]; SPARSE_GHOST_CTOR(_m, _o); \
   /* ASSUMED: compressed form, 0 <= outer[k] <= outer[k+1] <= nnz */ \
   __CPROVER_assume(0 <= _it.m_id && _it.m_id <= _it.m_end && _it.m_end <= _m->nnz); \
   /* ASSUMED: outer[] is monotone, point-wise against the ghost outer vector */ \
@@ -68,7 +80,7 @@ static inline long SparseM_nonZeros(SparseM *m) { return m->nnz; }
 #define SpIt_inc(it) ((it)->m_id++, (it))
 #define SpIt_index(it) ({ \
   __CPROVER_assert(0 <= (it)->m_id && (it)->m_id < (it)->m->nnz, "InnerIterator::index(): read inside the index array"); \
-  int _r = (it)->m->inner[(it)->m_id]; \
+  int _r = (it)->m->inner[(it)->m_id]; SPARSE_GHOST_INDEX(it); \
   __CPROVER_assume(0 <= _r && _r < (it)->m->innerSize); \
   if ((it)->m->gpos >= 0 && (it)->m_outer == (it)->m->gouter && (it)->m_id < (it)->m_end) { \
     int _g = (it)->m->inner[(it)->m->gpos]; \
